@@ -3,7 +3,7 @@
 # suite passes with the change, demo fails with it, demo passes without it. (No git stash: stash refs
 # are shared between worktrees.)
 export GOFLAGS=-mod=mod GOPROXY=off GOSUMDB=off GOTOOLCHAIN=local
-ID=$1; W=/tmp/seed/$ID; O=/tmp/seed/out/$ID
+ID=$1; W=/tmp/${ROUND:-seed}/$ID; O=/tmp/${ROUND:-seed}/out/$ID
 cd $W || exit 2
 DD=$(python3 -c "import json;print(json.load(open('$O/meta.json')).get('demo_dir','.') or '.')")
 PAT=$(grep -oE '^func (Test[A-Za-z0-9_]+)' $O/demo_test.go | awk '{print $2}' | paste -sd'|')
